@@ -262,3 +262,8 @@ def ob_reserved(r, tier, seed):
 _c19_obl2 = obligations
 def obligations():
     return _c19_obl2() + [Ob('O19.2-reserved-names', 'user-spellable names the output relies on are mangled', ob_reserved, ('quick', 'thorough'), 1, {})]
+
+_c19_obl3 = obligations
+def obligations():
+    from props import selftest_ob
+    return _c19_obl3() + selftest_ob.mangle_obligations('O19.0')
